@@ -8,7 +8,7 @@ from facts import op_place
 
 EVENT_OF = {
     common.T_ABSORB1: 'A', common.T_ABSORBV: 'A', common.T_ABSORB64: 'A',
-    common.T_SQUEEZE: 'S', common.T_SQUEEZE_N: 'S+', common.T_DIGEST: 'D', common.T_NEW: 'N',
+    common.T_SQUEEZE: 'S', common.T_DIGEST: 'D', common.T_NEW: 'N',
 }
 
 
